@@ -265,10 +265,24 @@ def run(tier):
             gated += 1
             if r.get("st") not in ("parse_error", "static_error"):
                 v.finding("gating:" + class_string(t[:12]), "a text with an error-level diagnostic was executed: %r" % t, {"text": t})
+    # long runs of every error-recovery shape of the lexer (tokens only: rendering 300 000 diagnostics is not the point):
+    # the scanner must get through them iteratively
+    # (string shapes end their line: the scanner looks for the line end from every literal, which is quadratic TIME on
+    # a one-line file - slow, not a failure)
+    pieces = ["1.a ", "1. ", "1abc ", "@ ", "\"\\q\"\n", "\"a\\tb\"\n", "\"open\n", "'x\n", "1.é ", "# c\r", "if to ", "small x ", "é ", "1.\"\n", "\t\f "]
+    runs = [{"id": i, "src": pc * (300000 if not q else 120000), "modes": ["lex"]} for i, pc in enumerate(pieces)]
+    lres = runner.run_requests(runs, mode="front", nworkers=8, timeout=300)
+    lex_runs_ok = 0
+    for i, pc in enumerate(pieces):
+        r = lres.get(i, {}).get("lex", {})
+        if r.get("st") in ("PANIC", "CRASH", "HANG") or r.get("tokens") is None or r.get("bad_spans"):
+            v.finding("lexrun:" + class_string(pc), "a long run of %r: %s" % (pc, r.get("panic") or r.get("crash") or r), {"text": pc * 50, "minimal": pc, "detail": str(r)[:300]})
+        else:
+            lex_runs_ok += 1
     render_info = renderer_conformance(rnd.sample(texts[:n_sweep], min(n_sweep, 1500 if q else 8000)) + rnd.sample(texts[n_sweep:n_sweep + n_mut + n_rand], 300 if q else 2000))
     v.coverage = {"states": states, "transitions": transitions, "traces_validated_against_impl": counts["ok"],
                   "renderer_conformance_(information_only)": render_info,
-                  "texts_enumerated_by_tlc": n_sweep, "token_mutations_of_generated_programs": n_mut, "random_mutations_of_corpus": n_rand, "wide_programs": n_wide, "member_call_arity_family": n_family,
+                  "texts_enumerated_by_tlc": n_sweep, "token_mutations_of_generated_programs": n_mut, "random_mutations_of_corpus": n_rand, "wide_programs": n_wide, "member_call_arity_family": n_family, "long_runs_of_lexer_recovery_shapes": len(pieces), "long_runs_ok": lex_runs_ok,
                   "results": dict(counts), "clean_texts_with_same_tokens_as_reference": token_agree, "clean_texts_with_other_tokens_(information_only)": token_differ,
                   "gating_texts_with_errors_checked": gated, "evaluations": len(texts), "distinct_nontrivial": len(set(texts)),
                   "rule": "every text over the alphabet up to the bound (TLC), plus token mutations and byte mutations; all are non-trivial (every text must survive); distinct texts counted",
